@@ -50,6 +50,7 @@ struct Exec {
   const sim::Plan& p; sim::Run& r; Obs& obs; std::string cfg;
   unsigned P; model::Pool pool; Filtration F; std::vector<unsigned> unit;  // unit[pool index]: rescaling of the basis element
   int next_id = 0; bool default_ids_ok = true; bool had_removal = false;
+  int cmp_ctx = -1;  // position of the vine swap in progress (for the comparators of the configurations without stored barcode)
   std::vector<int> rowids;  // boundary-type matrices: row identifier attached to each position (stays with the position under vine swaps)
   std::unique_ptr<M> mp;
 
@@ -354,10 +355,19 @@ struct Exec {
   void run() {
     bool reserve = p.geti("reserve", 1) != 0;
     if constexpr (FAM == CHAIN && VINE && !BARCODE) {
-      // seam S8: without a stored barcode the matrix asks the caller to compare births / deaths of the bars of two positions
-      auto bar_of = [this](unsigned pos) { for (auto& b : F.barcode()) if (b.birth == (int)pos || b.death == (int)pos) return b; return Bar{-1, -1, -1}; };
-      std::function<bool(unsigned, unsigned)> birth_cmp = [this, bar_of](unsigned a, unsigned b) { r.count("probe.comparator_calls"); return bar_of(a).birth < bar_of(b).birth; };
-      std::function<bool(unsigned, unsigned)> death_cmp = [this, bar_of](unsigned a, unsigned b) { r.count("probe.comparator_calls"); auto x = bar_of(a).death, y = bar_of(b).death; if (x < 0) return false; if (y < 0) return true; return x < y; };
+      // seam S8: without a stored barcode the matrix asks the caller to compare the births / deaths of the bars of two columns.
+      // The arguments are column indices (MatIdx) of the underlying chain matrix (the documentation said positions; the code and
+      // its client, the zigzag module, use column indices: the harness follows the code, see DESIGN 10.3). With container indexing the caller can
+      // translate them with get_pivot, as the zigzag module does (re-entrant read while the swap is in progress). Behind an
+      // overlay (position / identifier indexing) a column index means nothing to the caller: there the comparator answers for
+      // the two positions of the swap in progress, in the order of the call.
+      auto bar_at = [this](int pos) { for (auto& b : F.barcode()) if (b.birth == pos || b.death == pos) return b; return Bar{-1, -1, -1}; };
+      auto bars_of_args = [this, bar_at](unsigned a, unsigned b) -> std::pair<Bar, Bar> {
+        if constexpr (IDX == 0) return {bar_at(F.pos_of_id((int)mp->get_pivot(a))), bar_at(F.pos_of_id((int)mp->get_pivot(b)))};
+        else { (void)a; (void)b; if (cmp_ctx < 0) r.fail("harness", "comparator called outside a vine swap of the harness"); return {bar_at(cmp_ctx), bar_at(cmp_ctx + 1)}; }
+      };
+      std::function<bool(unsigned, unsigned)> birth_cmp = [this, bars_of_args](unsigned a, unsigned b) { r.count("probe.comparator_calls"); auto bb = bars_of_args(a, b); return bb.first.birth < bb.second.birth; };
+      std::function<bool(unsigned, unsigned)> death_cmp = [this, bars_of_args](unsigned a, unsigned b) { r.count("probe.comparator_calls"); auto bb = bars_of_args(a, b); auto x = bb.first.death, y = bb.second.death; if (x < 0) return false; if (y < 0) return true; return x < y; };
       mp.reset(new M(reserve ? 32u : 0u, birth_cmp, death_cmp, P));
     } else {
       if (reserve) mp.reset(new M(32, P)); else { mp.reset(new M()); if constexpr (!Z2) mp->set_characteristic(P); }
@@ -401,14 +411,18 @@ struct Exec {
           // (fixed finding C06-KF12: without stored barcode the RU matrix threw from its pivot table during swaps)
           r.count("probe.ru_map_nobarcode_swap");
         }
-        if constexpr (FAM == CHAIN && !BARCODE) {
-          // known finding C06-KF10: the user comparators are documented to receive positions but are called with column indices
-          r.count("probe.chain_swap_with_comparators"); if (r.kf("C06-KF10")) { obs.tainted = true; r.skipped(); return true; }
-        }
         int i = adm[op.arg(0) % adm.size()];
         if (op.arg(1) % 3 == 0 && std::find(adm.begin(), adm.end(), last_swap) != adm.end()) i = last_swap;  // revisit the same pair
         bool z1 = op.name == "swap_z1";
         auto before = F.barcode(); auto exch = exchanged(before, i);
+        if constexpr (FAM == CHAIN && !BARCODE) {
+          r.count("probe.chain_swap_with_comparators");
+          // known finding C06-KF10 (narrow): without stored barcode the matrix decides whether a paired column is the death of its
+          // pair by comparing the two identifiers; wrong as soon as earlier swaps put a pair's identifiers out of filtration order
+          bool sign_by_id_wrong = false;
+          for (auto& b : before) if (b.death >= 0 && (b.birth == i || b.birth == i + 1 || b.death == i || b.death == i + 1) && F.cells[b.death].id < F.cells[b.birth].id) sign_by_id_wrong = true;
+          if (sign_by_id_wrong) { r.count("probe.chain_nobarcode_pair_ids_out_of_order"); if (r.kf("C06-KF10")) { obs.tainted = true; r.skipped(); return true; } }
+        }
         // position-indexed API (returns whether the barcode changed) or index-pair API (returns the index of the cell now at the larger position)
         constexpr bool BY_POS = (FAM != CHAIN && IDX != 2) || (FAM == CHAIN && IDX == 1);
         unsigned ci = col_of_pos(i), cj = col_of_pos(i + 1);
@@ -427,8 +441,10 @@ struct Exec {
           r.count("probe.swap_z_eq_1");
         }
         bool ret_bool = false; unsigned ret_idx = 0;
+        cmp_ctx = i;
         if constexpr (BY_POS) ret_bool = z1 ? mp->vine_swap_with_z_eq_1_case((unsigned)i) : mp->vine_swap((unsigned)i);
         else ret_idx = z1 ? mp->vine_swap_with_z_eq_1_case(ci, cj) : mp->vine_swap(ci, cj);
+        cmp_ctx = -1;
         std::swap(F.cells[i], F.cells[i + 1]);
         last_swap = i; had_swap = true; r.mutated = true;
         auto after = F.barcode();
